@@ -1,6 +1,39 @@
-(* C02 — Device resolution follows Spec-directory precedence. *)
-From Coq Require Import String List.
-From CDI Require Import Base Cache.
-Example C02_placeholder : scan nil = nil.
-Proof. reflexivity. Qed.
-Print Assumptions C02_placeholder.
+(* C02 — Injection is the ordered composition of the selected Specs' and devices' edits. *)
+From Coq Require Import String Ascii List Bool Arith.
+From CDI Require Import Base SpecModel Parser Paths Oci Apply Cache CacheProofs InjectSpec InjectProofs.
+Import ListNotations.
+Open Scope string_scope.
+
+(* For every directory population, host oracle, OCI spec (or nil) and EVERY request list: InjectDevices on the refreshed
+   cache equals the declarative inject_spec, which is built from the precedence rule only. *)
+Theorem C02_inject_refines_spec : forall host fs o names,
+  unique_names (scan fs) -> inject host (refresh fs) o names = inject_spec host (loaded (scan fs)) o names.
+Proof. exact inject_refines_spec_fs. Qed.
+Print Assumptions C02_inject_refines_spec.
+(* all requested names resolvable: exactly ONE application (C03) of the combined edit list *)
+Theorem C02_inject_is_apply_combined : forall host fl o names,
+  (forall n, In n names -> resolve_spec fl n <> None) ->
+  inject_spec host fl (Some o) names = ([], snd (apply host (combined fl names) o), Some (fst (apply host (combined fl names) o))).
+Proof. exact inject_all_resolvable. Qed.
+Print Assumptions C02_inject_is_apply_combined.
+(* every contribution to the combined list is the spec-level edit list of a file a requested name resolves to, or the
+   edits of the definition a requested name resolves to: nothing of unrequested devices, shadowed or uninvolved files *)
+Theorem C02_provenance : forall fl names before e,
+  In e (contributions fl before names) ->
+  exists n cd, In n names /\ resolve_spec fl n = Some cd /\ (e = s_edits (lf_spec (cd_file cd)) \/ e = d_edits (cd_dev cd)).
+Proof. exact contributions_provenance. Qed.
+Print Assumptions C02_provenance.
+(* spec-level edits once per file: #contributions = #resolvable requested names + #distinct files they resolve to *)
+Theorem C02_spec_edits_once : forall fl names before,
+  length (contributions fl before names) =
+  length (filter (fun n => negb (unresolvable fl n)) names) + distinct_files fl before names.
+Proof. exact contributions_count. Qed.
+Print Assumptions C02_spec_edits_once.
+
+Definition ex_dev (n fp : string) : device := mkDevice n [] (mkEdits [fp] [] [] [] None []).
+Definition ex_fs2 : fsview :=
+  [("/etc/cdi", DDir [("a.json", EFile (Some (mkSpec "0.3.0" "v.com/c" [] [ex_dev "d1" "D=a1"; ex_dev "d2" "D=a2"] (mkEdits ["S=a"] [] [] [] None []))))]);
+   ("/run/cdi", DDir [("b.json", EFile (Some (mkSpec "0.3.0" "v.com/c" [] [ex_dev "d2" "D=b2"; ex_dev "d3" "D=b3"] (mkEdits ["S=b"] [] [] [] None []))))])].
+Example C02_example :
+  e_env (combined (loaded (scan ex_fs2)) ["v.com/c=d3"; "v.com/c=d1"; "v.com/c=d2"]) = ["S=b"; "D=b3"; "S=a"; "D=a1"; "D=b2"].
+Proof. vm_compute. reflexivity. Qed.
